@@ -69,6 +69,9 @@ def run(ctx):
     vectors = [{'cse': c, 'graded': g, 'symbolcls': s, 'wrapper': w}
                for c in (True, False) for g in (False, True) for s in (None, 'sympy') for w in (False, True)]
     vectors.append({'pretty_blade': 'x'})
+    # a wrapper that is a plain closure (does not carry the generated function's __name__)
+    vectors.append({'wrapper': 'plain'})
+    vectors.append({'wrapper': 'plain', 'cse': False, 'graded': True})
     cfgs = [ucfg(sig=[1, 1]), ucfg(sig=[0, 1]), ucfg(sig=[1, 1, -1]), named_ucfg('2DPGA'), ucfg(3, 0, 1)]
     if not q:
         cfgs += [ucfg(sig=s) for s in ([1, -1], [0, 0], [1, 1, 1], [0, 1, -1], [1, 1, 1, 1], [0, 1, 1, 1], [1, -1, 1, -1])] + [named_ucfg('3DPGA')]
